@@ -13,15 +13,11 @@ From PJ.Model Require Import Base Terms.
 From PJ.Model Require Lookup Encoder.
 From PJ.Model Require Streams.
 From PJ.Tie Require Import PyPrims StrN LookupEncTie EncodeTie EncodeStmtTie FlowsTie StreamsTie DecoderBase GenericTerms.
+From PJ.Tie Require Export StmtLayout.
 From PJ.Gen Require Import LookupEncGen OptionsGen EncodeGen FlowsGen StreamsGen GenericSinkGen GenericSerializeGen.
 Local Open Scope Z_scope.
 
-(* ------------------------------------------------------------------ where a term goes in a statement message *)
-Definition grp (i : Z) : list string := if i =? 0 then g_s else if i =? 1 then g_p else if i =? 2 then g_o else g_g.
-Definition pre (i : Z) : string := if i =? 0 then "s" else if i =? 1 then "p" else if i =? 2 then "o" else "g".
-Definition gput (i : Z) (w : wterm) (stmt : pbval str) : pbval str :=
-  msg_set (grp i) (pre i ++ suffix w)%string (wmsg w) stmt.
-
+(* ------------------------------------------------------------------ the translated dispatchers *)
 Notation gs_spo_fuel := (GenericSinkTermEncoder_encode_spo_fuel SN).
 (* the dispatchers exactly as the translated Stream methods of this integration are given them (the term objects are the
    translated classes of generic_sink.py, `obj`; the model's terms embed in them by obj_of_term) *)
@@ -30,72 +26,6 @@ Definition gs_graph := GenericSinkTermEncoder_encode_graph SN.
 Notation grmsg := (rmsg gput).
 Notation gbuilding := (building gput).
 
-(* the slot being filled is still empty: reading its sub-messages gives fresh ones *)
-Lemma building_fresh i stmt : (0 <= i <= 3) -> gbuilding i stmt -> which_of (grp i) (msg_fields stmt) = None.
-Proof.
-  intros Hi [n [ws [wp [wo [_ Hs]]]]]. subst stmt.
-  assert (Hc : i = 0 \/ i = 1 \/ i = 2 \/ i = 3) by lia.
-  destruct Hc as [-> | [-> | [-> | ->]]]; cbn [Z.eqb Pos.eqb].
-  - reflexivity.
-  - destruct ws as [[]|]; reflexivity.
-  - destruct ws as [[]|], wp as [[]|]; reflexivity.
-  - destruct ws as [[]|], wp as [[]|], wo as [[]|]; reflexivity.
-Qed.
-
-Lemma which_none_get G (fs : list (string * pbval str)) f : which_of G fs = None -> In f G -> msg_get f fs = None.
-Proof.
-  induction fs as [|[n v] fs IH]; cbn [which_of msg_get]; [reflexivity|]. intros H Hf.
-  destruct (existsb (String.eqb n) G) eqn:E; [discriminate|].
-  destruct (String.eqb n f) eqn:E2; [|exact (IH H Hf)].
-  apply String.eqb_eq in E2. subst f.
-  assert (existsb (String.eqb n) G = true) by (apply existsb_exists; exists n; split; [exact Hf | apply String.eqb_refl]). congruence.
-Qed.
-
-Lemma fresh_sub i stmt f ty : (0 <= i <= 3) -> gbuilding i stmt -> In f (grp i) -> msg_sub f ty stmt = PMsg ty [].
-Proof.
-  intros Hi Hb Hf. unfold msg_sub. rewrite (which_none_get _ _ _ (building_fresh i stmt Hi Hb) Hf). reflexivity.
-Qed.
-
-(* the quoted triple a dispatcher builds, slot by slot, is the message of the wire term *)
-Lemma quoted_msg ws wp wo :
-  gput 2 wo (gput 1 wp (gput 0 ws (PMsg "RdfTriple" []))) = wmsg (WTriple (Some ws) (Some wp) (Some wo)).
-Proof. destruct ws, wp, wo; reflexivity. Qed.
-
-(* the rows that come with a term are lookup entries: the same message whatever the layout of terms *)
-Definition entry_row (r : row) : Prop := match r with RPrefix _ _ | RName _ _ | RDatatype _ _ => True | _ => False end.
-
-Lemma entry_rows_grmsg (rows : list row) : Forall entry_row rows -> map msg_of_row rows = map grmsg rows.
-Proof.
-  induction 1 as [|r rows Hr _ IH]; [reflexivity|]. cbn [map]. rewrite IH. destruct r; try contradiction; reflexivity.
-Qed.
-
-Lemma encode_iri_entries iri m m' rows p n : E.encode_iri iri m = Ok (m', rows, p, n) -> Forall entry_row rows.
-Proof.
-  unfold E.encode_iri. destruct (E.split_iri iri) as [prefix name0].
-  match goal with |- context [bind ?x _] => destruct x as [[[[pfx pkeys] pe] name]|]; cbn [bind]; [|discriminate] end.
-  destruct (E.entry_index _ _ _) as [[[nms nkeys] ne]|]; cbn [bind]; [|discriminate].
-  cbv zeta.
-  destruct (E.lift _ _) as [[pfx2 pidx]|]; cbn [bind]; [|discriminate].
-  destruct (E.lift _ _) as [[nms2 nidx]|]; cbn [bind]; [|discriminate].
-  intros [= _ <- _ _]. destruct pe, ne; repeat constructor.
-Qed.
-
-Lemma encode_literal_entries lex lang dt m m' rows w : E.encode_literal lex lang dt m = Ok (m', rows, w) -> Forall entry_row rows.
-Proof.
-  unfold E.encode_literal.
-  destruct (E.truthy dt) as [d|]; cbn [bind].
-  - destruct (str_eqb d xsd_string); cbn [bind]; [intros [= _ <- _]; constructor|].
-    destruct (_ =? 0)%N; cbn [bind]; [discriminate|].
-    destruct (E.entry_index _ _ _) as [[[dts dkeys] oe]|]; cbn [bind]; [|discriminate].
-    destruct (E.lift _ _) as [[dts2 idx]|]; cbn [bind]; [|discriminate].
-    intros [= _ <- _]. destruct oe; repeat constructor.
-  - intros [= _ <- _]. constructor.
-Qed.
-
-(* ------------------------------------------------------------------ encode_spo *)
-Ltac slot_cases i Hi := let H := fresh in assert (H : i = 0 \/ i = 1 \/ i = 2) by lia; destruct H as [-> | [-> | ->]]; cbn [Z.eqb Pos.eqb].
-
-Lemma In_grp_s f : In f g_s -> In f (grp 0). Proof. exact (fun H => H). Qed.
 
 Theorem gs_spo_fuel_tie (tm : term) : forall fuel i stmt g m, Rt g m -> (0 <= i <= 2) -> gbuilding i stmt -> (term_depth tm < fuel)%nat ->
   match gs_spo_fuel fuel (obj_of_term tm) i stmt g, E.encode_spo_term E.Generic tm m with
@@ -255,11 +185,27 @@ Print Assumptions generic_sim_graph.
 (* ------------------------------------------------------------------ hence, for the generic integration, with nothing assumed
    about its dispatchers: the statement level of encode.py and the Stream classes (the theorems of EncodeStmtTie.v and
    StreamsTie.v at the translated dispatchers) *)
-Definition generic_encode_triple_is_model := source_encode_triple_is_model E.Generic obj_of_term (obj_eqb SN) source_term_eq_is_model gs_spo gput generic_sim_spo.
-Definition generic_encode_quad_is_model := source_encode_quad_is_model E.Generic obj_of_term (obj_eqb SN) source_term_eq_is_model gs_spo gs_graph gput generic_sim_spo generic_sim_graph.
-Definition generic_stream_triple_is_model := source_stream_triple_is_model E.Generic obj_of_term (obj_eqb SN) source_term_eq_is_model gs_spo gput generic_sim_spo.
-Definition generic_stream_quad_is_model := source_stream_quad_is_model E.Generic obj_of_term (obj_eqb SN) source_term_eq_is_model gs_spo gs_graph gput generic_sim_spo generic_sim_graph.
-Definition generic_stream_graph_is_model := source_stream_graph_is_model E.Generic obj_of_term (obj_eqb SN) source_term_eq_is_model gs_spo gs_graph gput generic_sim_spo generic_sim_graph.
+(* the generic integration's equality is exact on every term: no restriction (ok := all_ok) *)
+Definition all_ok : term -> Prop := fun _ => True.
+Lemma all_ok_eq (a b : term) : all_ok a -> all_ok b -> obj_eqb SN (obj_of_term a) (obj_of_term b) = term_eqb a b.
+Proof. intros _ _. apply source_term_eq_is_model. Qed.
+Lemma Forall_all_ok (l : list term) : Forall all_ok l.
+Proof. apply Forall_forall. intros x _. exact I. Qed.
+Lemma Forall2_all_ok (l : list (list term)) : Forall (Forall all_ok) l.
+Proof. apply Forall_forall. intros x _. apply Forall_all_ok. Qed.
+Lemma rep_all_ok (rp : E.repeated) : rep_ok all_ok rp.
+Proof. unfold rep_ok, ok_opt. repeat split; destruct (_ rp); exact I. Qed.
+
+Definition generic_encode_triple_is_model terms rp g m HR :=
+  source_encode_triple_is_model E.Generic obj_of_term (obj_eqb SN) all_ok all_ok_eq gs_spo gput generic_sim_spo terms rp g m HR (Forall_all_ok terms) (rep_all_ok rp).
+Definition generic_encode_quad_is_model terms rp g m HR :=
+  source_encode_quad_is_model E.Generic obj_of_term (obj_eqb SN) all_ok all_ok_eq gs_spo gs_graph gput generic_sim_spo generic_sim_graph terms rp g m HR (Forall_all_ok terms) (rep_all_ok rp).
+Definition generic_stream_triple_is_model terms g m HR Hc :=
+  source_stream_triple_is_model E.Generic obj_of_term (obj_eqb SN) all_ok all_ok_eq gs_spo gput generic_sim_spo terms g m HR Hc (Forall_all_ok terms).
+Definition generic_stream_quad_is_model terms g m HR Hc :=
+  source_stream_quad_is_model E.Generic obj_of_term (obj_eqb SN) all_ok all_ok_eq gs_spo gs_graph gput generic_sim_spo generic_sim_graph terms g m HR Hc (Forall_all_ok terms).
+Definition generic_stream_graph_is_model gid triples g m HR Hc :=
+  source_stream_graph_is_model E.Generic obj_of_term (obj_eqb SN) all_ok all_ok_eq gs_spo gs_graph gput generic_sim_spo generic_sim_graph gid triples g m HR Hc (Forall2_all_ok triples).
 
 Print Assumptions generic_encode_triple_is_model.
 Print Assumptions generic_encode_quad_is_model.
